@@ -254,12 +254,17 @@ pub fn random_fault(rng: &mut Rng, counters: &BTreeMap<String, u32>, calls: u64,
 }
 
 fn class_block(text: &str, kname: &str) -> (String, String) {
-    // returns (block of class K, text without it)
+    def_block(text, &format!("class {kname}"))
+}
+
+/// (block of the top-level definition whose first line starts with `header` followed by a
+/// non-identifier character, text without it)
+fn def_block(text: &str, header: &str) -> (String, String) {
     let mut block = String::new();
     let mut rest = String::new();
     let mut skipping = false;
     for line in text.lines() {
-        if !skipping && line.starts_with(&format!("class {kname}")) && !line[6 + kname.len()..].starts_with(|c: char| c.is_ascii_alphanumeric() || c == '_') {
+        if !skipping && block.is_empty() && line.starts_with(header) && !line[header.len()..].starts_with(|c: char| c.is_ascii_alphanumeric() || c == '_') {
             skipping = true;
             block.push_str(line);
             block.push('\n');
@@ -288,20 +293,35 @@ fn visibility_relation(rng: &mut Rng, fenced: &BTreeSet<String>) -> Option<Rel> 
         g.small_program();
         let lib_text = g.out.clone();
         // K: a plain class without parents (its block is self-contained)
-        let cands: Vec<usize> = (0..g.classes.len()).filter(|&i| !g.classes[i].is_exception && g.classes[i].parents.is_empty()).collect();
-        let ci = match cands.last() {
-            Some(c) => *c,
-            None => continue,
+        let cands: Vec<usize> = (0..g.classes.len()).filter(|&i| !g.classes[i].is_exception && !g.interfaces.contains(&i) && g.classes[i].parents.is_empty()).collect();
+        // or a function with primitive parameters and result
+        let fcands: Vec<usize> = (0..g.funs.len())
+            .filter(|&i| g.funs[i].raises.is_empty() && !matches!(g.funs[i].ret, crate::gen::Ty::Class(_)) && g.funs[i].params.iter().all(|(_, t, _)| !matches!(t, crate::gen::Ty::Class(_))))
+            .collect();
+        let use_fun = !fcands.is_empty() && (cands.is_empty() || g.rng.chance(1, 2));
+        let (ci, fi) = if use_fun { (usize::MAX, *g.rng.pick(&fcands)) } else {
+            match cands.last() {
+                Some(c) => (*c, usize::MAX),
+                None => continue,
+            }
         };
-        let kname = g.classes[ci].name.clone();
         // the user file is self-contained: it sees nothing of lib while its body is generated
         g.begin_file(1, "ua", &BTreeSet::new());
         g.small_program();
         let body = g.out.clone();
         let vis: BTreeSet<usize> = [0usize].into_iter().collect();
         g.visible_files = vis;
-        let use_line = g.use_line(ci);
-        let (k_block, without) = class_block(&lib_text, &kname);
+        let (use_line, k_block, without) = if use_fun {
+            let fname = g.funs[fi].name.clone();
+            let l = g.call_line(fi);
+            let (b, w) = def_block(&lib_text, &format!("def {fname}"));
+            (l, b, w)
+        } else {
+            let kname = g.classes[ci].name.clone();
+            let l = g.use_line(ci);
+            let (b, w) = class_block(&lib_text, &kname);
+            (l, b, w)
+        };
         if k_block.is_empty() {
             continue;
         }
